@@ -1,30 +1,34 @@
+// dbg <replay.json>: runs the program of a bt-seq replay file on the engine it names and prints every event (debug aid).
 package main
 
 import (
 	"encoding/json"
+	"fmt"
 	"os"
-	"time"
 
+	"verif/harness/internal/bt"
 	"verif/harness/internal/j"
-	"verif/harness/internal/lockmap"
 )
 
-// dbg <schedules.json> <out.ndjson>: execute the schedules and write the runs
 func main() {
-	var scheds [][]lockmap.Step
 	b, _ := os.ReadFile(os.Args[1])
-	if err := json.Unmarshal(b, &scheds); err != nil {
+	var f struct {
+		Case struct {
+			Engine  string  `json:"engine"`
+			Program []bt.Op `json:"program"`
+		} `json:"case"`
+	}
+	if err := json.Unmarshal(b, &f); err != nil {
 		panic(err)
 	}
-	var out []byte
-	for i, s := range scheds {
-		run := lockmap.Execute(i+1, s, []string{"p1", "p2", "p3"}, 25*time.Millisecond, 0)
-		for _, p := range []string{"p1", "p2", "p3"} {
-			if run.Procs[p] == nil {
-				run.Procs[p] = []lockmap.Event{}
-			}
-		}
-		out = append(out, j.Line(run)...)
+	dir, _ := os.MkdirTemp("", "dbg")
+	defer os.RemoveAll(dir)
+	s, err := bt.Start(f.Case.Engine, dir)
+	if err != nil {
+		panic(err)
 	}
-	os.WriteFile(os.Args[2], out, 0644)
+	defer s.Close()
+	for _, e := range s.Run(1, f.Case.Program) {
+		fmt.Print(string(j.Line(e)))
+	}
 }
